@@ -6,7 +6,8 @@
 //!   M a b                   multiply(a, b)
 //!   MI a b res              multiply_into(a, b, res)
 //!   T v n                   fft(v, n)
-//!   TI v n dest             fft_into(v, n, dest)   (dest: `len x1 y1 .. xlen ylen`, small integers)
+//!   TI v n dest             fft_into(v, n, dest)   (dest: `len x1 y1 .. xlen ylen`, small integers), then fft(v, n);
+//!                           prints `<dest bits> ; <plain bits>`
 //!   V a b n res             fft(a, n), fft(b, n), pointwise product, fft_inv_into(prod, res)
 //! Output: one field per op separated by ` | ` (integers in decimal, floats as u64 bit patterns,
 //! `-` for F/U, `P` if the call panicked), then ` | W <bits>*`: the twiddle table of the largest
@@ -99,7 +100,12 @@ fn history(t: &[&str]) -> String {
                 let v = tk.i32s();
                 let n = tk.usize();
                 let mut dest = tk.cplx();
-                guarded(|| fft.fft_into(&v, n, &mut dest)).map(|_| bits(&dest))
+                // then the plain transform of the same input on the same object (additive contract: dest + fft(v, n))
+                guarded(|| {
+                    fft.fft_into(&v, n, &mut dest);
+                    fft.fft(&v, n)
+                })
+                .map(|plain| format!("{} ; {}", bits(&dest), bits(&plain)))
             }
             "V" => {
                 let a = tk.i32s();
